@@ -202,7 +202,7 @@ theorem classParticles_aligned (A : App) :
 
 theorem slots_aligned (A : App) (ns : Text) (ps : List (Text × Particle)) (fields : List (Text × Ty))
     (h : All2 (AlignedWith A ns) ps fields) :
-    slots ps = slotsS (denoteFields A.facts A.tns ns fields) ∧ ps.isEmpty = fields.isEmpty := by
+    slots ps = slotsS (denoteFields (primFacetsA A) A.tns ns fields) ∧ ps.isEmpty = fields.isEmpty := by
   induction h with
   | nil => exact ⟨rfl, rfl⟩
   | @cons e fl l1 l2 hab _ ih =>
@@ -215,9 +215,9 @@ theorem slots_aligned (A : App) (ns : Text) (ps : List (Text × Particle)) (fiel
 /-- looking a child up in the particles and in the denoted slots gives corresponding results -/
 theorem find_aligned (A : App) (ns : Text) (ps : List (Text × Particle)) (fields : List (Text × Ty))
     (h : All2 (AlignedWith A ns) ps fields) (cns cname : Text) :
-    (findParticle ps cns cname = none ∧ findS (denoteFields A.facts A.tns ns fields) (cns, cname) = none) ∨
+    (findParticle ps cns cname = none ∧ findS (denoteFields (primFacetsA A) A.tns ns fields) (cns, cname) = none) ∨
     (∃ e fl, AlignedWith A ns e fl ∧ fl ∈ fields ∧ findParticle ps cns cname = some e.2 ∧
-      findS (denoteFields A.facts A.tns ns fields) (cns, cname) = some (fl.2.occ, denote A.facts A.tns ns fl.2)) := by
+      findS (denoteFields (primFacetsA A) A.tns ns fields) (cns, cname) = some (fl.2.occ, denote (primFacetsA A) A.tns ns fl.2)) := by
   induction h with
   | nil => exact Or.inl ⟨rfl, rfl⟩
   | @cons e fl l1 l2 hab _ ih =>
@@ -237,8 +237,8 @@ theorem find_aligned (A : App) (ns : Text) (ps : List (Text × Particle)) (field
         have : (decide (e.1 = cns) && decide (e.2.name = cname)) = false := by
           simpa using hne
         rw [this]
-      have e2 : findS (denoteFields A.facts A.tns ns ((k, t) :: l2)) (cns, cname) =
-          findS (denoteFields A.facts A.tns ns l2) (cns, cname) := by
+      have e2 : findS (denoteFields (primFacetsA A) A.tns ns ((k, t) :: l2)) (cns, cname) =
+          findS (denoteFields (primFacetsA A) A.tns ns l2) (cns, cname) := by
         simp only [findS, denoteFields, List.find?_cons]
         have : decide ((ns, k) = (cns, cname)) = false := by simpa using hk
         rw [this]
@@ -327,22 +327,28 @@ theorem primFacets_default (F6 : Facts06) (p : PrimTy) (h1 : isEnum p = false) (
   | duration => rfl
   | bytes e => rfl
 
+theorem primFacetsA_default (A : App) (p : PrimTy) (h1 : isEnum p = false) (h2 : isDefaultA A p = true) :
+    primFacetsA A p = [] := by
+  simp only [isDefaultA, Bool.and_eq_true, List.isEmpty_iff] at h2
+  simp only [primFacetsA, App.enumLits, h2.2, List.filterMap_nil, List.map_nil, List.nil_append]
+  exact primFacets_default A.facts p h1 h2.1
+
 theorem posOk_of_noClash (A : App) (h : NoClash A) (cns cname k : Text) :
     ∀ t : Ty, (∀ e ∈ (tyDefs A cns cname k t).simple, e ∈ rawSimple A) →
       (∀ e ∈ (tyDefs A cns cname k t).complex, e ∈ rawComplex A) →
       (∀ D ∈ nested t, D ∈ A.allClasses) → posOk A (gen A) cns cname k t = true
   | .prim p o, hs, _, _ => by
     simp only [posOk]
-    by_cases hq : (isEnum p || !primIsDefault p) = true
+    by_cases hq : (isEnum p || !isDefaultA A p) = true
     · rw [if_pos hq]
-      have hm : (itemKey A cns cname k (.prim p o), ({ base := builtinOf p, facets := primFacets A.facts p } : SimpleDef)) ∈ rawSimple A := by
+      have hm : (itemKey A cns cname k (.prim p o), ({ base := builtinOf p, facets := primFacetsA A p } : SimpleDef)) ∈ rawSimple A := by
         apply hs
         simp [tyDefs, hq]
       rw [simple_lookup A h _ _ hm]
       simp
     · rw [if_neg hq]
       simp only [Bool.or_eq_true, Bool.not_eq_true', not_or, Bool.not_eq_true, Bool.not_eq_false] at hq
-      rw [primFacets_default A.facts p hq.1 hq.2]; rfl
+      rw [primFacetsA_default A p hq.1 hq.2]; rfl
   | .obj name ns b fields o, _, _, hn => by
     have hD : ({ name := name, ns := ns, base := b, fields := fields } : ClassDef) ∈ A.allClasses := hn _ (by simp [nested])
     have := complex_lookup A h _ _ (class_mem_rawComplex A _ hD)
@@ -372,7 +378,7 @@ structure Closed (A : App) : Prop where
 theorem closed_of_wf (A : App) (h : A.wf = true) : Closed A := by
   unfold App.wf at h
   simp only [Bool.and_eq_true] at h
-  obtain ⟨hb, hnc⟩ := h
+  obtain ⟨⟨hb, hnc⟩, _⟩ := h
   have hN := noClash_unfold A hnc
   unfold App.wfBase at hb
   rw [List.all_eq_true] at hb
@@ -408,7 +414,7 @@ theorem validChildren_eq (S : Schema) (ps : List (Text × Particle)) (qs : List 
 
 theorem nodeKey_eq (c : Node) : nodeKey c = (c.ns, c.name) := by cases c; rfl
 
-theorem denoteFields_isEmpty (F6 : Facts06) (tns ns : Text) (fs : List (Text × Ty)) :
+theorem denoteFields_isEmpty (F6 : PrimTy → List Facet) (tns ns : Text) (fs : List (Text × Ty)) :
     (denoteFields F6 tns ns fs).isEmpty = fs.isEmpty := by
   cases fs with
   | nil => rfl
@@ -443,11 +449,11 @@ theorem validElem_complex (S : Schema) (t : TypeRef) (nillable : Bool) (ns name 
 theorem validElem_gen_pos (A : App) (hc : Closed A) :
     ∀ x : Node, ∀ (cns cname k : Text) (t : Ty) (nillable : Bool),
       posOk A (gen A) cns cname k t = true → (∀ D ∈ nested t, D ∈ A.allClasses) →
-      validElem (gen A) (refOf A cns cname k t) nillable x = validS (denote A.facts A.tns cns t) nillable x := by
+      validElem (gen A) (refOf A cns cname k t) nillable x = validS (denote (primFacetsA A) A.tns cns t) nillable x := by
   intro x
   induction x using Node.rec (motive_2 := fun cs => ∀ c ∈ cs, ∀ (cns cname k : Text) (t : Ty) (nillable : Bool),
       posOk A (gen A) cns cname k t = true → (∀ D ∈ nested t, D ∈ A.allClasses) →
-      validElem (gen A) (refOf A cns cname k t) nillable c = validS (denote A.facts A.tns cns t) nillable c) with
+      validElem (gen A) (refOf A cns cname k t) nillable c = validS (denote (primFacetsA A) A.tns cns t) nillable c) with
   | nil => rename_i c hm _ _ _ _ _ _ _; cases hm
   | cons head tail ih1 ih2 =>
     rename_i c hm cns cname k t nillable hpos hnest
@@ -459,11 +465,11 @@ theorem validElem_gen_pos (A : App) (hc : Closed A) :
     cases t with
     | prim p o =>
       simp only [posOk] at hpos
-      by_cases hq : (isEnum p || !primIsDefault p) = true
+      by_cases hq : (isEnum p || !isDefaultA A p) = true
       · rw [if_pos hq] at hpos
         have hr : refOf A cns cname k (.prim p o) = .named (itemKey A cns cname k (.prim p o)) := by
-          have : (!isEnum p && primIsDefault p) = false := by
-            cases h1 : isEnum p <;> cases h2 : primIsDefault p <;> simp_all
+          have : (!isEnum p && isDefaultA A p) = false := by
+            cases h1 : isEnum p <;> cases h2 : isDefaultA A p <;> simp_all
           simp [refOf, this]
         rw [hr]
         simp only [denote]
@@ -471,8 +477,8 @@ theorem validElem_gen_pos (A : App) (hc : Closed A) :
         simp only [Schema.resolve, beq_iff_eq.mp hpos]
       · rw [if_neg hq] at hpos
         have hr : refOf A cns cname k (.prim p o) = .builtin (builtinOf p) := by
-          have : (!isEnum p && primIsDefault p) = true := by
-            cases h1 : isEnum p <;> cases h2 : primIsDefault p <;> simp_all
+          have : (!isEnum p && isDefaultA A p) = true := by
+            cases h1 : isEnum p <;> cases h2 : isDefaultA A p <;> simp_all
           simp [refOf, this]
         rw [hr]
         simp only [denote, beq_iff_eq.mp hpos]
@@ -530,8 +536,8 @@ theorem validElem_gen_pos (A : App) (hc : Closed A) :
         · have f1 : findParticle [(memberNs A.tns cns m e, ({ name := memberLocal m, type := refOf A cns cname k e, occ := e.occ } : Particle))] c.ns c.name
               = some { name := memberLocal m, type := refOf A cns cname k e, occ := e.occ } := by
             simp [findParticle, hkey.1, hkey.2]
-          have f2 : findS [((memberNs A.tns cns m e, memberLocal m), e.occ, denote A.facts A.tns cns e)] (c.ns, c.name)
-              = some (e.occ, denote A.facts A.tns cns e) := by
+          have f2 : findS [((memberNs A.tns cns m e, memberLocal m), e.occ, denote (primFacetsA A) A.tns cns e)] (c.ns, c.name)
+              = some (e.occ, denote (primFacetsA A) A.tns cns e) := by
             simp [findS, hkey.1, hkey.2]
           rw [f1, f2]
           exact ih c hcm cns cname k e e.occ.nillable hs3 (by intro D hD; exact hnest D (by simpa [nested] using hD))
@@ -543,7 +549,7 @@ theorem validElem_gen_pos (A : App) (hc : Closed A) :
           have f1 : findParticle [(memberNs A.tns cns m e, ({ name := memberLocal m, type := refOf A cns cname k e, occ := e.occ } : Particle))] c.ns c.name
               = none := by
             simp [findParticle, hfalse]
-          have f2 : findS [((memberNs A.tns cns m e, memberLocal m), e.occ, denote A.facts A.tns cns e)] (c.ns, c.name)
+          have f2 : findS [((memberNs A.tns cns m e, memberLocal m), e.occ, denote (primFacetsA A) A.tns cns e)] (c.ns, c.name)
               = none := by
             simp [findS, hfalse]
           rw [f1, f2]
